@@ -954,7 +954,7 @@ impl Property for C10 {
         C10
     }
     fn n_cases(&self, tier: Tier) -> u64 {
-        tier.pick(150_000, 3_000_000)
+        tier.pick(300_000, 3_000_000)
     }
     fn chunk(&self, _tier: Tier) -> u64 {
         5000
